@@ -26,6 +26,7 @@ import (
 	"bytes"
 	"context"
 	"crypto/rand"
+	"crypto/sha256"
 	"encoding/base64"
 	"encoding/hex"
 	"fmt"
@@ -1008,6 +1009,17 @@ func (w *tkWorld) opCont(l string, f []string, kv map[string]string) {
 	w.lastPair = tkStatus(r) + " " + tkDecision(r)
 }
 
+// tkSpecNormKey restates the documented key normalisation independently of the code under test
+// (exactly 32 bytes pass through, every other length is SHA-256'd): the oracles judge "same token
+// key" with it, never with normalizeTokenKey itself.
+func tkSpecNormKey(key []byte) []byte {
+	if len(key) == 32 {
+		return append([]byte(nil), key...)
+	}
+	sum := sha256.Sum256(key)
+	return sum[:]
+}
+
 // envelopeEqual: does the presented text decode (Go's StdEncoding) to exactly the bytes the server sealed?
 func tkEnvelopeEqual(presented []byte, base *tkSlot) bool {
 	if base == nil {
@@ -1028,7 +1040,7 @@ func (w *tkWorld) contOracles(l string, in *tkInst, ident, method string, r tkRe
 	cur []byte, curBase *tkSlot, curAlt, curPresent bool, call []byte, callBase *tkSlot, callAlt, callPresent bool, now int64) {
 	c := w.c
 	sameKey := func(s *tkSlot) bool {
-		return s != nil && bytes.Equal(vgirpc.VerifC12NormalizeKey(w.insts[s.inst].key), vgirpc.VerifC12NormalizeKey(in.key))
+		return s != nil && bytes.Equal(tkSpecNormKey(w.insts[s.inst].key), tkSpecNormKey(in.key))
 	}
 	// what the cursor is, judged independently of the server
 	curGenuine := curBase != nil && curBase.kind == "cursor" && tkEnvelopeEqual(cur, curBase) && sameKey(curBase)
@@ -1036,6 +1048,18 @@ func (w *tkWorld) contOracles(l string, in *tkInst, ident, method string, r tkRe
 	ranCode := len(w.events) > 0
 
 	// ---- C12: forged or altered tokens never reach stream state
+	if curBase != nil && curPresent && !sameKey(curBase) {
+		c.Stat("c12-foreign-key-cursor")
+		if accepted || ranCode {
+			w.oracle("C12", "foreign-key-token-accepted", fmt.Sprintf("%q: cursor sealed by %s (key %x) accepted by %s (key %x): different token keys", l, curBase.inst, w.insts[curBase.inst].key, in.name, in.key))
+		}
+	}
+	if curGenuine && !cacheHit && callBase != nil && callPresent && !sameKey(callBase) && tkSameIdent(curBase.ident, ident) && curBase.method == method {
+		c.Stat("c12-foreign-key-call")
+		if accepted || ranCode {
+			w.oracle("C12", "foreign-key-token-accepted", fmt.Sprintf("%q: call token sealed by %s (key %x) accepted by %s (key %x) on a cache miss: different token keys", l, callBase.inst, w.insts[callBase.inst].key, in.name, in.key))
+		}
+	}
 	if curPresent && !curGenuine {
 		c.Stat("c12-cursor-not-genuine")
 		if accepted || ranCode {
@@ -1314,7 +1338,7 @@ func (w *tkWorld) opSticky(l string, f []string, kv map[string]string) {
 
 	// ---- C13 oracles on sticky-session tokens
 	if base != nil && present {
-		sameKey := bytes.Equal(vgirpc.VerifC12NormalizeKey(w.insts[base.inst].key), vgirpc.VerifC12NormalizeKey(in.key))
+		sameKey := bytes.Equal(tkSpecNormKey(w.insts[base.inst].key), tkSpecNormKey(in.key))
 		if base.kind == "session" && !alt && sameKey && !tkSameIdent(base.ident, ident) && resumed != "" {
 			w.oracle("C13", "cross-identity-session-accepted", fmt.Sprintf("%q: session token minted for %s resumed (%s) by %s", l, base.ident, resumed, ident))
 		}
